@@ -3,7 +3,8 @@
    script (main body and every function body, before and after optimisation). *)
 From Coq Require Import Floats.
 From EF Require Import Model.Base Gen.Tables Model.Lexer Model.Ast Model.Parser Model.Code Model.Value Model.Env
-                       Model.Reflect Model.Compiler Model.Optimizer Model.VM Model.Verifier Spec.Moded Proofs.VerifierProofs Proofs.StructProofs Proofs.ModedProofs.
+                       Model.Reflect Model.Compiler Model.Optimizer Model.VM Model.Verifier Spec.Moded Proofs.VerifierProofs Proofs.StructProofs Proofs.ModedProofs Proofs.OptModedProofs.
+From EF Require Import Model.OptSafe.
 Open Scope N_scope.
 
 (* what acceptance by the verifier means, instruction by instruction *)
@@ -106,3 +107,17 @@ Theorem C18_void_call_underflows :
     ~ ModedProofs.calls_push ModedProofs.quiet_stdlib (pconsts p) (pfuncs p) [(L "f", FHost HKVoid)] HNil 20 (pmain p) 0 m0 /\
     ModedProofs.calls_push ModedProofs.quiet_stdlib (pconsts p) (pfuncs p) [(L "f", FHost (HKConst (VInt 1)))] HNil 20 (pmain p) 0 m0.
 Proof. exact ModedProofs.void_call_underflows. Qed.
+
+(* AFTER OPTIMISATION.  Composing the stack discipline of compiled code with the validated optimizer's
+   simulation (C03): the optimized program of a well-moded script never ends in a machine-internal error
+   either, as long as the calls of the (unoptimized) script return values. *)
+Theorem C18_optimized_never_underflows : forall fuelc (ast : program) p p',
+  well_moded ast = true -> compile_program fuelc ast = CompOk p ->
+  optimize_program_safe p = Some p' ->
+  forall o fns obj m, polls m = None ->
+  (forall fuel', ModedProofs.calls_push o (pconsts p) (pfuncs p) fns obj fuel' (pmain p) 0
+                            (mkM [] (env_truncate (menv m) 0) (trace m) (polls m))) ->
+  forall fuel out m',
+  run_main o (pconsts p') (pfuncs p') fns obj fuel (pmain p') m = (out, m') ->
+  out <> OErr EInternal.
+Proof. exact OptModedProofs.optimized_run_never_underflows. Qed.
